@@ -1470,6 +1470,19 @@ def run_npos(chk, F, CG, entries, rid="R-NPOS", minimum=1):
             for v in vs:
                 if v.get("init") is not None and any(c.get("name") in STRING_FINDS and "basic_string" in (c.get("cls") or "")
                                                      for c in calls(v["init"])):
+                    # `std::min(s.find(c), s.size())` is clamped to the length: substr(size()) is the empty string
+                    clamped = any(c.get("name") == "min" and any(x.get("name") in ("size", "length") for x in calls(c.get("args", [])))
+                                  and any(x.get("name") in STRING_FINDS for x in calls(c.get("args", [])))
+                                  for c in calls(v["init"]))
+                    only_in_min = clamped and not any(
+                        c.get("name") in STRING_FINDS and not any(
+                            m_.get("name") == "min" and any(y is c for y in walk(m_.get("args", []))) for m_ in calls(v["init"]))
+                        for c in calls(v["init"]))
+                    if only_in_min:
+                        n += 1
+                        chk.ob(rid, "%s|%s|clamped" % (fn["name"], v.get("name")), True, "", "%s:%s" % (fl, d.get("l")),
+                               sample="%s: %s = min(find(..), size()) is a valid start for substr" % (fn["name"], v.get("name")))
+                        continue
                     pos[v.get("id")] = v.get("name")
         if not pos:
             continue
